@@ -1,6 +1,8 @@
 """C11 Actor lifecycle semantics: see DESIGN.md section 4 (C11), checks/kernel_sync.py. Programs combine create, on_exit callbacks,
 join with and without timeout, kill, kill_all, daemonize, set_kill_time with sleeps, executions and semaphore waits; a second family
-(K.gen_susp_prog) has actors suspend and resume each other or themselves while they sleep, join, or wait on semaphores and mutexes.
+(K.gen_susp_prog) has actors suspend and resume each other or themselves while they sleep, join, or wait on semaphores and mutexes;
+a third one (K.gen_restart_prog) has actors ask for auto-restart and a controller turn their hosts off and on again: every
+incarnation must run the inherited callbacks (and those it registers itself) exactly once, in reverse order.
 
 Found by this check and repaired (fix: resuming an actor whose simcall is not handled yet ...): an actor suspended and resumed in the
 scheduling round in which it issued a simcall was run before that simcall was answered (its sleep / join / lock returned at once);
@@ -15,8 +17,9 @@ META = {"text": "TLC explores SgKernel on lifecycle programs (invariant Lifecycl
                 "order, join returns exactly at min(end of target, t0+t), a kill time fires exactly at its date, killed actors "
                 "observe nothing further, a suspended actor observes nothing (no operation returns, no callback runs) until it is resumed "
                 "or killed (action property SuspendedNoProgress in the exploration; guard of the ret line in trace validation).",
-        "note": "Trusted: TLC, hook H1, driver kdrv. auto-restart after reboot is not generated; suspension of an actor that takes part in "
-                "a communication or an execution is left undefined by the specification (not examined); the value of "
+        "note": "Trusted: TLC, hook H1, driver kdrv. Left undefined by the specification (not examined): suspension of an actor that takes "
+                "part in a communication or an execution, a reboot while the previous incarnation is still dying, arming a second kill "
+                "time; the value of "
                 "the failed flag is only checked for normal termination (false). Outcome sets are not compared (a kill can land between "
                 "an answer and its observation); conformance is by trace validation.",
         "technique": "TLC model checking of SgKernel + TLC trace validation of real runs (kdrv, hook H1)"}
@@ -38,13 +41,28 @@ EXTRA = [
     new_prog(actors=[[op("suspend", 2), op("sleep", 0, 0, 4), op("resume", 2), op("resume", 3)], [op("sleep", 0, 0, 2), op("sleep", 0, 0, 1)],
                      [op("suspend", 3), op("join", 1, 0, -1)]]),
     new_prog(actors=[[op("sleep", 0, 0, 2)], [op("join", 1, 0, 5), op("onexit", 21)], [op("suspend", 2), op("sleep", 0, 0, 3), op("resume", 2)]]),
+    # auto-restart: two reboots; the callbacks registered before and after set_auto_restart are inherited by every incarnation
+    new_prog(actors=[[op("sleep", 0, 0, 1), op("hostoff", 2), op("sleep", 0, 0, 1), op("hoston", 2), op("sleep", 0, 0, 3), op("hostoff", 2),
+                      op("sleep", 0, 0, 1), op("hoston", 2)],
+                     [op("onexit", 21), op("autorestart"), op("onexit", 22), op("sleep", 0, 0, 2)], [op("join", 2, 0, -1), op("sleep", 0, 0, 2), op("join", 2, 0, -1)]]),
+    # the actor had ended normally before its host failed: it is restarted all the same; a daemon stays a daemon
+    new_prog(actors=[[op("sleep", 0, 0, 2), op("hostoff", 2), op("sleep", 0, 0, 1), op("hoston", 2), op("sleep", 0, 0, 1)],
+                     [op("onexit", 21), op("daemon"), op("autorestart"), op("sleep", 0, 0, 1)], [op("sleep", 0, 0, 4), op("kill", 2)]]),
 ]
+
+
+def _gen(rng, quick):
+    x = rng.random()
+    if x < 0.3:
+        return K.gen_susp_prog(rng, max_actors=4, max_ops=5 if quick else 6)
+    if x < 0.55:
+        return K.gen_restart_prog(rng, max_actors=4, max_ops=4 if quick else 5)
+    return K.gen_life_prog(rng, max_actors=4, max_ops=5 if quick else 6)
 
 
 def run(ctx):
     kernel_sync.run(ctx, "life", 300, 3000, extra=EXTRA, compare_outcomes=False,
-                    nontrivial=lambda p: any(o["op"] in ("kill", "killall", "join", "create", "killtime", "daemon", "suspend")
+                    nontrivial=lambda p: any(o["op"] in ("kill", "killall", "join", "create", "killtime", "daemon", "suspend", "autorestart")
                                              for a in p["actors"] for o in a),
                     rule_note="the program kills, joins, creates, daemonizes, suspends or sets a kill time",
-                    gen=lambda rng, quick: (K.gen_susp_prog(rng, max_actors=4, max_ops=5 if quick else 6) if rng.random() < 0.4
-                                            else K.gen_life_prog(rng, max_actors=4, max_ops=5 if quick else 6)))
+                    gen=lambda rng, quick: _gen(rng, quick))
